@@ -7,6 +7,7 @@
     method name, comparison operator and integer constant (a body that does not fit the template
     aborts with "translator cannot handle", which the check reports as a broken tie)
   * the isNonKing test of NNEvaluator::setPiece
+  * the clamp bounds of the generic scaleClipPack loop (vectorop.hpp)
   * maxIncr, maxStackSize (= MAX_SEARCH_DEPTH * 2), n1, inFeatures, l1Shift, the capacity of the
     `add[2][N]` scratch array of computeL1WB
   * the evaluation-cache layout of evaluate.{hpp,cpp}: table size, empty-entry word, hit test,
@@ -142,6 +143,14 @@ def parse(repo):
     out["n1"] = cint(need(re.search(r"static constexpr int n1 = ([^;]+) ;", nt), "n1").group(1))
     out["l1Shift"] = cint(need(re.search(r"static constexpr int l1Shift = ([^;]+) ;", nt), "l1Shift").group(1))
 
+    # ---- vectorop.hpp: generic fallback of scaleClipPack
+    vo = norm(rd("nn", "vectorop.hpp"))
+    m = need(re.search(r"for \( int i = 0 ; i < n1 ; i \+\+ \) out \[ i \] = clamp \( l1OutC \( i \) >> shift , (- ?%s|%s) , (%s) \) ; \}" % (INT, INT, INT), vo),
+             "generic fallback loop of scaleClipPack")
+    out["clipLo"] = cint(m.group(1))
+    out["clipHi"] = cint(m.group(2))
+    need(re.search(r"scaleClipPack < NetData :: l1Shift > \( & l1OutClipped \( c \* n1 \) , l1OutC \)", nn), "scaleClipPack call of computeL1Out")
+
     # ---- evaluation cache
     eh = norm(rd("evaluate.hpp"))
     ec = norm(rd("evaluate.cpp"))
@@ -226,7 +235,7 @@ def render(o):
     L.append("  let kIdx := y * %d + x in" % g["c4"])
     L.append("  (kIdx * %d + pt) * %d + sq." % (g["c5"], g["c6"]))
     L.append("")
-    for k in ("maxIncr", "maxStackSize", "addCap", "n1", "inFeatures", "l1Shift"):
+    for k in ("maxIncr", "maxStackSize", "addCap", "n1", "inFeatures", "l1Shift", "clipLo", "clipHi"):
         L.append("Definition %s : Z := %s." % (k, z(o[k])))
     L.append("")
     L.append("(* evaluation cache (evaluate.hpp / evaluate.cpp: evalPos) *)")
